@@ -545,7 +545,11 @@ class Repo:
     def table_writers(self, module: str, name: str) -> List[str]:
         """functions anywhere in the package that re-bind or mutate the module-level table ``module.name`` after import
         (assignment / deletion of entries, update / pop / clear / setdefault, ``global name`` re-binding)"""
+        cache = self.__dict__.setdefault('_table_writers_cache', {})
+        if (module, name) in cache:
+            return list(cache[(module, name)])
         out: List[str] = []
+        cache[(module, name)] = out
         muts = ('update', 'pop', 'popitem', 'clear', 'setdefault', 'append', 'extend', 'insert', 'remove', '__setitem__', '__delitem__')
         for f in self.all_functions():
             local = {a.arg for a in f.node.args.args} | {n.id for n in ast.walk(f.node) if isinstance(n, ast.Name) and isinstance(n.ctx, ast.Store)}
